@@ -172,7 +172,7 @@ class Ctx:
     # -------------------------------------------------------------------- TLC
     def tlc(self, module, cfg=None, files=(), workers=None, timeout=1800, extra=(),
             coverage=False, simulate=None, depth=None, allow_violation=False, jvm=(),
-            cfg_text=None, dfid=False):
+            cfg_text=None, dfid=False, heap="4g"):
         """Run TLC on spec/<module>.tla in a private copy of the spec directory.
 
         files: iterable of (src_path, name_in_run_dir) made available to the spec.
@@ -197,7 +197,9 @@ class Ctx:
             with open(os.path.join(d, cfgname), "w") as f:
                 f.write(cfg_text)
         w = workers or NCPU
-        argv = ["java", "-XX:+UseParallelGC", "-Xss256m"] + list(jvm) + [
+        # every JVM gets an explicit heap bound: the default (25% of RAM each) lets a handful of
+        # concurrent TLC runs exhaust the machine
+        argv = ["java", "-XX:+UseParallelGC", "-Xss256m", "-Xmx" + heap] + list(jvm) + [
             "-cp", "/opt/veriftools/tla/tla2tools.jar:/opt/veriftools/tla/CommunityModules-deps.jar",
             "tlc2.TLC", "-workers", str(w), "-metadir", os.path.join(d, "meta"),
             "-config", cfgname, "-noGenerateSpecTE"]
